@@ -21,6 +21,7 @@ type Reply struct {
 	Quote   string   `json:"quote"`    // "" / "28": header + 8 bytes; "full"; "ext": RFC 4884 padded quote + extension
 	IPOpt   int      `json:"ipopt"`    // outer IPv4 option bytes (NOPs), 0/4/40
 	HBH     bool     `json:"hbh"`      // outer IPv6 header followed by a hop-by-hop options header (PadN)
+	Mapped6 bool     `json:"mapped6"`  // an IPv4 ICMP reply (echo reply / error) re-expressed as an IPv6 packet between the IPv4-MAPPED addresses (::ffff:a.b.c.d)
 	Ext6    string   `json:"ext6"`     // outer IPv6 header followed by another extension header: "dst" (destination options, 60) | "rt" (routing, 43)
 	QTTL    int      `json:"qttl"`     // 0: rewrite quoted TTL to 1 (what routers see); n>0: that value; -1: keep
 	QCsum   string   `json:"qcsum"`    // "" fix | "zero" | "keep"
@@ -109,6 +110,11 @@ func (r Reply) Encode(probe []byte, fl Flow) ([]byte, error) {
 	b, err := r.encode(probe, fl)
 	if err != nil {
 		return nil, err
+	}
+	if r.Mapped6 {
+		if b, err = mapTo6(b); err != nil {
+			return nil, err
+		}
 	}
 	if (r.Ext6 == "dst" || r.Ext6 == "rt") && len(b) >= 40 && b[0]>>4 == 6 {
 		n := make([]byte, 0, len(b)+8)
@@ -287,13 +293,13 @@ func (r Reply) encode(probe []byte, fl Flow) ([]byte, error) {
 					left := fl.LocalISN + uint32(tt)
 					e := make([]byte, 8)
 					be.PutUint32(e[0:4], left)
-					be.PutUint32(e[4:8], left+1)
+					be.PutUint32(e[4:8], left+uint32(r.mod("sack_width", 1))) // width 0: a block that acknowledges nothing
 					opt = append(opt, e...)
 				}
 				if _, ok := r.ModsD["sack_left"]; ok || r.Mods["sack_left"] != 0 { // move the first block
 					v := uint32(r.mod("sack_left", int64(be.Uint32(opt[4:8]))))
 					be.PutUint32(opt[4:8], v)
-					be.PutUint32(opt[8:12], v+1)
+					be.PutUint32(opt[8:12], v+uint32(r.mod("sack_width", 1)))
 				}
 				t.Options = opt
 			}
@@ -388,4 +394,51 @@ func (r Reply) buildQuote(pip pkt.IP, ppl []byte) []byte {
 		}
 	}
 	return full[:hl+keep]
+}
+
+// mapTo6 re-expresses an IPv4 ICMP packet (echo reply, or an error with its quote) as the IPv6 packet a confused translator would
+// emit: every address becomes its IPv4-mapped form, ICMP becomes ICMPv6 with the corresponding type.
+func mapTo6(b []byte) ([]byte, error) {
+	ip, pl, err := pkt.ParseIP(b)
+	if err != nil || ip.V6 || ip.Proto != 1 {
+		return nil, ErrNotApplicable
+	}
+	m, err := pkt.ParseICMP(ip, pl)
+	if err != nil {
+		return nil, err
+	}
+	m6 := func(a netip.Addr) netip.Addr { return netip.AddrFrom16(a.As16()) }
+	hdr6 := func(h pkt.IP, l4 []byte, l4len int) []byte {
+		proto := h.Proto
+		if proto == 1 {
+			proto = 58
+		}
+		x := pkt.BuildIP(pkt.IP{V6: true, Src: m6(h.Src), Dst: m6(h.Dst), Proto: proto, TTL: h.TTL}, l4)
+		be.PutUint16(x[4:6], uint16(l4len))
+		return x
+	}
+	out := pkt.ICMP{Rest: m.Rest}
+	switch m.Type {
+	case 0:
+		out.Type, out.Body = 129, m.Body
+	case 11, 3:
+		out.Type = 3
+		if m.Type == 3 {
+			out.Type, out.Code = 1, 4
+		}
+		qip, ql4, err := pkt.ParseIP(m.Body)
+		if err != nil || qip.V6 {
+			return nil, ErrNotApplicable
+		}
+		l4 := append([]byte(nil), ql4...)
+		if qip.Proto == 1 && len(l4) > 0 && l4[0] == 8 {
+			l4[0] = 128
+		}
+		out.Rest = [4]byte{}
+		out.Body = hdr6(qip, l4, qip.TotLen-qip.HdrLen)
+	default:
+		return nil, ErrNotApplicable
+	}
+	src, dst := m6(ip.Src), m6(ip.Dst)
+	return pkt.BuildIP(pkt.IP{V6: true, Src: src, Dst: dst, Proto: 58, TTL: ip.TTL}, pkt.BuildICMP(true, src, dst, out)), nil
 }
